@@ -29,6 +29,9 @@ func (w *World) callSites(names ...string) []Site {
 	}
 	var out []Site
 	for _, fn := range w.Funcs {
+		if w.uniqueCallSite(fn) != nil {
+			continue // an absorbed helper: visited with its caller
+		}
 		eachInstr(fn, func(in ssa.Instruction) {
 			if c := callOf(in); c != nil {
 				n := w.calleeName(c)
@@ -116,6 +119,9 @@ func (w *World) chanKey(v ssa.Value) string {
 func (w *World) chanOps() []ChanOp {
 	var out []ChanOp
 	for _, fn := range w.Funcs {
+		if w.uniqueCallSite(fn) != nil {
+			continue // an absorbed helper: visited with its caller
+		}
 		eachInstr(fn, func(in ssa.Instruction) {
 			switch x := in.(type) {
 			case *ssa.Send:
@@ -194,6 +200,9 @@ type FieldAccess struct {
 func (w *World) fieldAccesses(owner string) []FieldAccess {
 	var out []FieldAccess
 	for _, fn := range w.Funcs {
+		if w.uniqueCallSite(fn) != nil {
+			continue // an absorbed helper: visited with its caller
+		}
 		eachInstr(fn, func(in ssa.Instruction) {
 			fa, ok := in.(*ssa.FieldAddr)
 			if !ok {
@@ -243,6 +252,9 @@ func stripToAlloc(v ssa.Value) (*ssa.Alloc, bool) {
 func (w *World) goSites() []Site {
 	var out []Site
 	for _, fn := range w.Funcs {
+		if w.uniqueCallSite(fn) != nil {
+			continue // an absorbed helper: visited with its caller
+		}
 		eachInstr(fn, func(in ssa.Instruction) {
 			if _, ok := in.(*ssa.Go); ok {
 				out = append(out, Site{fn, in})
